@@ -16,4 +16,4 @@ else:
     for v in st['violations'][:3]:
         print('VIOL', json.dumps(v)[:1500])
     for s in st['samples'][:6]:
-        print('SAMPLE', json.dumps(s)[:600])
+        print('SAMPLE', json.dumps(s)[:int(__import__("os").environ.get("SAMPLE_CHARS", "600"))])
